@@ -251,6 +251,66 @@ def purity_probes(fn, rnd, tier, fns):
     return res
 
 
+# ---------------------------------------------------------------- hidden reads through natives
+USER = 'get_object(ApiUser, "sbu")'
+SECRET_ARGS = [('ApiUser', USER), ('Reference', '(&%s.password)' % USER), ('Array', '[ %s ]' % USER),
+               ('Dictionary', '{ u = %s }' % USER), ('Array', '[ &%s.password ]' % USER), ('Array', 'get_objects(ApiUser)'),
+               ('Reference', '(&%s.password_hash)' % USER)]
+SECRET_PAT = '"*sbSECRETpw*"'
+
+
+def hidden_native_probes(fn, rnd, tier, fns):
+    """every side-effect-free function gets the object that owns a no_user_view field (ApiUser.password), a reference to that
+    field, and containers of both, in every argument position and as receiver; what comes back is (a) returned through the
+    console, raw and JSON-encoded, (b) compared with the secret inside filter / event filters -> (mode, code, desc, leak)"""
+    name, path = fn['name'], fn['path']
+    declared = [x for x in fn['args'].split(',') if x]
+    k = len(declared)
+    is_cb = any(a in declared for a in ('func', 'less_cmp', 'reduce', 'callback', 'cmp'))
+    calls = []
+    if path.startswith('@'):
+        ty, key = path[1:].split('.', 1)
+        ok_types = RECV_BY_TYPE.get(ty, [])
+        recvs = [(t, x) for (t, x) in SECRET_ARGS if t in ok_types]
+    else:
+        ty, key, recvs = None, '-', [(None, None)]
+    arities = sorted({k, max(0, k - 1)}) if k else [1, 2]
+    for rty, rx in recvs:
+        callee = '%s.%s' % (rx, key) if rx else path
+        base = 'kind=call fn=%s recv=%s rty=%s key=%s lsafe=1' % (hx(name), 'shared' if rx else 'none', hx(rty or '-'), hx(key))
+        if is_cb:
+            for cbx in (CB2 if key in ('sort', 'reduce') else CB1) + ([''] if key == 'sort' else []):
+                cbn = [f['name'] for f in fns if f['path'] == cbx]
+                calls.append(('%s(%s)' % (callee, cbx), base + (' cb=native cbn=%s' % hx(cbn[0]) if cbn else ' cb=none nargs=0')))
+            continue
+        for n in arities:
+            if n == 0:
+                if rx:
+                    calls.append(('%s()' % callee, base + ' cb=none nargs=0'))
+                continue
+            for p in range(n):
+                for (_, sx) in SECRET_ARGS:
+                    for fl in (['"*"', '1'] if n > 1 else ['1']):
+                        args = [fl] * n
+                        args[p] = sx
+                        calls.append(('%s(%s)' % (callee, ', '.join(args)), base + ' cb=none nargs=%d' % n))
+    out, seen = [], set()
+    for i, (call, desc) in enumerate(calls):
+        if call in seen:
+            continue
+        seen.add(call)
+        form = (i + rnd.randrange(4)) % 4 if tier == 'quick' else -1
+        if form in (0, -1):
+            out.append(('console', call, desc, 0))
+        if form in (1, -1):
+            out.append(('console', 'Json.encode(%s)' % call, desc, 0))
+        if form in (2, -1):
+            out.append(('filter', 'match(%s, Json.encode(%s))' % (SECRET_PAT, call), desc, 1))
+        if form in (3, -1):
+            out.append((('event', 'filter', 'inbox')[i % 3], '(%s) == "sbSECRETpw"' % call, desc, 1))
+    return out
+
+
 _enum_cache = {}
 
 
@@ -374,6 +434,15 @@ def generate(seed, tier):
         for j in range(0, len(ps), 40):
             lines = [probe(i + 1, mode, 0, code, desc) for i, (mode, code, desc) in enumerate(ps[j:j + 40])]
             add(lines, 'purity', fn=fn['name'], safe=1)
+    # 2d. HIDDEN READS THROUGH NATIVES: every side-effect-free function x every position x {owner of a no_user_view field,
+    #     reference to the field, containers of them}; the value is handed back (console) or compared with the secret (filters)
+    for fn in fns:
+        if not fn['safe']:
+            continue
+        ps = hidden_native_probes(fn, rnd, tier, fns)
+        for j in range(0, len(ps), 40):
+            lines = [probe(i + 1, mode, 0, code, desc, leak=leak) for i, (mode, code, desc, leak) in enumerate(ps[j:j + 40])]
+            add(lines, 'hidden-via-native', fn=fn['name'], safe=1)
     # 3. every type as constructor
     lines = []
     for i, t in enumerate(types):
